@@ -291,10 +291,12 @@ def document(spec, names):
 
 # ----------------------------------------------------------------------------------------------- building / observing
 class Side:
-    def __init__(self, spec, names):
+    def __init__(self, spec, names, uid=None):
         self.spec, self.names = spec, names
         self.modname = model.fresh('dwv_feat_')
-        self.source = render(spec, names, self.modname[len('dwv_feat'):])
+        # `uid` given: the source (and with it every __qualname__) of an earlier Side, executed once more in a new module
+        self.uid = uid if uid is not None else self.modname[len('dwv_feat'):]
+        self.source = render(spec, names, self.uid)
         self.mod = types.ModuleType(self.modname)
         sys.modules[self.modname] = self.mod
         try:
@@ -321,6 +323,12 @@ class Side:
 
     def close(self):
         sys.modules.pop(self.modname, None)
+
+    def twin(self):
+        """the same source executed a second time: identically spelled, distinct classes"""
+        t = Side(self.spec, self.names, uid=self.uid)
+        assert t.source == self.source and t.root is not self.root
+        return t
 
     def key(self, k):
         if isinstance(k, str):
